@@ -1653,7 +1653,7 @@ def install(I):
     I.repo.externals["time"] = IN.StubModule("time", {"time": B("time", lambda I2: 0.0)})
     import itertools as _it
 
-    I.repo.externals["itertools"] = IN.StubModule("itertools", {"product": B("itertools.product", lambda I2, *its, repeat=1: [tuple(c) for c in _it.product(*[I2.iterate(x) for x in its], repeat=repeat)])})
+    I.repo.externals["itertools"] = IN.StubModule("itertools", {"product": B("itertools.product", lambda I2, *its, repeat=1: [tuple(c) for c in _it.product(*[I2.iterate(x) for x in its], repeat=repeat)]), "chain": B("itertools.chain", lambda I2, *its: [x for it_ in its for x in I2.iterate(it_)])})
     I.repo.externals["logging"] = IN.StubModule("logging", {})
     I.repo.externals["sys"] = IN.StubModule("sys", {})
     I.repo.externals["numbers"] = IN.StubModule("numbers", {"Number": NativeClass("numbers.Number")})
